@@ -8,17 +8,38 @@
 pub trait VClone: Sized { fn vclone(&self) -> (r: Self) ensures r == *self; }
 impl VClone for Ty { #[verifier::external_body] fn vclone(&self) -> (r: Self) { unimplemented!() } }
 impl VClone for String { #[verifier::external_body] fn vclone(&self) -> (r: Self) { unimplemented!() } }
+// lift::ScopeEntry / Scope: what is known about a variable in scope
+pub struct ScopeEntry { pub ty: Ty, pub closure_struct: Option<String> }
 #[verifier::external_body] pub struct Scope { _p: u64 }
+impl Scope {
+    pub uninterp spec fn entry_of(&self, name: Seq<char>) -> Option<ScopeEntry>;
+    // the stack of layers (innermost last); entry_of looks a name up from the innermost layer outwards
+    pub uninterp spec fn layers(&self) -> Seq<Map<Seq<char>, ScopeEntry>>;
+    #[verifier::external_body] pub fn push_layer(&mut self) ensures final(self).layers() == old(self).layers().push(Map::<Seq<char>, ScopeEntry>::empty()) { unimplemented!() }
+    #[verifier::external_body] pub fn pop_layer(&mut self) requires old(self).layers().len() > 0, ensures final(self).layers() == old(self).layers().drop_last() { unimplemented!() }
+    #[verifier::external_body]
+    pub fn insert(&mut self, name: String, entry: ScopeEntry)
+        requires old(self).layers().len() > 0,
+        ensures final(self).layers() == old(self).layers().drop_last().push(old(self).layers().last().insert(name@, entry)),
+    { unimplemented!() }
+    #[verifier::external_body] pub fn get(&self, name: &str) -> (r: Option<&ScopeEntry>) ensures r matches Some(e) ==> self.entry_of(name@) == Some(*e), r is None ==> self.entry_of(name@) is None { unimplemented!() }
+}
+impl VClone for Option<String> { #[verifier::external_body] fn vclone(&self) -> (r: Self) { unimplemented!() } }
+#[verifier::external_body] pub fn str_to_string(s: &str) -> (r: String) ensures r@ == s@ { unimplemented!() }
+#[verifier::external_body] pub fn vec_extend_lift(v: &mut Vec<LiftExpr>, more: Vec<LiftExpr>) ensures final(v)@ == old(v)@ + more@ { unimplemented!() }   // Vec::extend(Vec)
 // the lifting state: which struct names are closure environments (State::closure_types)
 #[verifier::external_body] pub struct State { _p: u64 }
 impl State {
     pub uninterp spec fn closure_of(&self, ty: Ty) -> Option<String>;     // State::closure_struct_for_ty
     #[verifier::external_body] pub fn closure_struct_for_ty(&self, ty: &Ty) -> (r: Option<String>) ensures r == self.closure_of(*ty) { unimplemented!() }
+    pub uninterp spec fn apply_of(&self, struct_name: Seq<char>) -> Option<Seq<char>>;                  // State::apply_fn_for_struct
+    #[verifier::external_body] pub fn apply_fn_for_struct(&self, struct_name: &str) -> (r: Option<&str>) ensures r matches Some(a) ==> self.apply_of(struct_name@) == Some(a@), r is None ==> self.apply_of(struct_name@) is None { unimplemented!() }
+    #[verifier::external_body] pub fn ty_contains_closure(&self, ty: &Ty) -> (r: bool) { unimplemented!() }
 }
 // the recursive call (an arbitrary lifted expression; the state may change, but not which types are closure environments)
 #[verifier::external_body]
 pub fn transform_expr(state: &mut State, scope: &mut Scope, expr: MonoExpr) -> (r: LiftExpr)
-    ensures forall|t: Ty| final(state).closure_of(t) == old(state).closure_of(t),
+    ensures forall|t: Ty| final(state).closure_of(t) == old(state).closure_of(t), forall|n: Seq<char>| final(scope).entry_of(n) == old(scope).entry_of(n), forall|n: Seq<char>| final(state).apply_of(n) == old(state).apply_of(n), final(scope).layers() == old(scope).layers(),
 { unimplemented!() }
 #[verifier::external_body] pub fn unbox(b: Box<MonoExpr>) -> (r: MonoExpr) { unimplemented!() }      // `*tuple`
 // the type carried by a lifted expression
@@ -41,3 +62,45 @@ pub open spec fn fields_retyped(old_f: Seq<(TastIdent, Ty)>, new_f: Seq<(TastIde
     && forall|i: int| 0 <= i < old_f.len() ==> (#[trigger] new_f[i]).0 == old_f[i].0
         && new_f[i].1 == (if i < cs.len() && cs[i] is Some { Ty::TStruct { name: cs[i]->0 } } else { old_f[i].1 })
 }
+// the closure struct a scope entry stands for: the recorded one, else the one its type names
+pub open spec fn entry_closure(state: &State, e: ScopeEntry) -> Option<String> {
+    if e.closure_struct is Some { e.closure_struct } else { state.closure_of(e.ty) }
+}
+// a call whose callee is a variable holding closure environment s with apply function f becomes `f(x: s, args..)`:
+// the closure itself first, the original arguments after it, in order
+pub open spec fn closure_call(r: LiftExpr, x: Seq<char>, e: ScopeEntry, s: String, f: Seq<char>, args: Seq<LiftExpr>, ty: Ty) -> bool {
+    r matches LiftExpr::ECall { func, args: ca, ty: rt } && rt == ty
+    && (*func matches LiftExpr::EVar { name: fnm, ty: fty } && fnm@ == f && fty == e.ty)
+    && ca@.len() == args.len() + 1
+    && (ca@[0] matches LiftExpr::EVar { name: cn, ty: cty } && cn@ == x && cty == Ty::TStruct { name: s })
+    && ca@.subrange(1, ca@.len() as int) == args
+}
+#[verifier::external_body] pub fn ty_unbox_clone(b: &Box<Ty>) -> (r: Ty) ensures r == **b { unimplemented!() }     // *ret_ty.clone()
+// fe / la: the lifted callee and the lifted arguments.  If the callee is a variable that holds a closure with an apply function the
+// call goes to that function (closure_call); otherwise callee and arguments are kept as they are
+pub open spec fn call_ok(r: LiftExpr, fe: LiftExpr, la: Seq<LiftExpr>, scope: &Scope, state: &State, ty: Ty) -> bool {
+    if fe is EVar && scope.entry_of(fe->EVar_name@) is Some && entry_closure(state, scope.entry_of(fe->EVar_name@)->0) is Some
+        && state.apply_of(entry_closure(state, scope.entry_of(fe->EVar_name@)->0)->0@) is Some {
+        let e = scope.entry_of(fe->EVar_name@)->0;
+        let s = entry_closure(state, e)->0;
+        closure_call(r, fe->EVar_name@, e, s, state.apply_of(s@)->0, la, ty)
+    } else {
+        r matches LiftExpr::ECall { func, args, ty: _ } && *func == fe && args@ == la
+    }
+}
+// the transformation of a let's BODY: a gate whose precondition says what the body must see — the let-bound variable in the innermost
+// layer, with the lifted VALUE's type and the closure environment that type names (so calls through it go to the apply function)
+#[verifier::external_body]
+pub fn transform_let_body(state: &mut State, scope: &mut Scope, expr: MonoExpr, Ghost(name): Ghost<Seq<char>>, Ghost(vty): Ghost<Ty>) -> (r: LiftExpr)
+    requires old(scope).layers().len() > 0, old(scope).layers().last().contains_key(name),
+        old(scope).layers().last()[name] == (ScopeEntry { ty: vty, closure_struct: old(state).closure_of(vty) }),
+    ensures final(scope).layers() == old(scope).layers(), forall|t: Ty| final(state).closure_of(t) == old(state).closure_of(t),
+{ unimplemented!() }
+#[verifier::external_body] pub fn transform_closure_named(state: &mut State, scope: &mut Scope, params: Vec<ClosureParam>, body: MonoExpr, ty: Ty, name: Option<String>) -> (r: LiftExpr)
+    ensures final(scope).layers() == old(scope).layers(), forall|t: Ty| final(state).closure_of(t) == old(state).closure_of(t),
+{ unimplemented!() }
+#[verifier::external_body] pub struct ClosureParam { _p: u64 }
+// what `*value` is: a closure literal (lifted with the binding's name) or anything else
+pub enum LetValue { Closure { params: Vec<ClosureParam>, body: Box<MonoExpr>, ty: Ty }, Other(MonoExpr) }
+#[verifier::external_body] pub fn let_value_of(value: Box<MonoExpr>) -> (r: LetValue) { unimplemented!() }
+
